@@ -1,5 +1,6 @@
 SPECIFICATION Spec
 CONSTANTS N = 5
+ NS = 2
 INVARIANTS InOrderOnce NoDanglingAtEnd FatalIsAbort Complete
 PROPERTY Terminates
 CHECK_DEADLOCK FALSE
